@@ -2,9 +2,10 @@
    Only statements, each closed by [exact] of a lemma proved in Proofs/Ping*.v.
 
    The event system is Model/Ping.v: histories are lists of Begin (the waiter is registered under
-   the table lock) / Sent ok (the send returned) / BulkFail n / Notify / Skip / Timeout / End
+   the table lock) / Sent ok (the send returned) / BulkFail n / Notify / Skip / Tick / Timeout / End
    events, in the order the code performs them; any event of another goroutine may come between
-   the Begin and the Sent of a call (a reply parsed while the call is still inside its send); [run fx (init n) tr = Ok s] says that tr is a well-formed history (every event enabled
+   the Begin and the Sent of a call (a reply parsed while the call is still inside its send).
+   Begin carries the call's timeout argument; time is the clock of the state, moved by Tick; [run fx (init n) tr = Ok s] says that tr is a well-formed history (every event enabled
    when it happens) from an empty table with next-id n, ending in s.  [run true] (= [run FIX24])
    is the code as it is in /repo since the repair of DESIGN section 11 #24 (commit 659869d),
    [run false] the code before it; every
@@ -13,7 +14,7 @@
    Model/PingFrame.v; its agreement with the RFC reading is in the frame theorems below. *)
 From PV Require Import Base.Prelude Model.Ping Model.PingTrace Model.PingFrame Model.PingScript Model.PingKnown.
 From PV Require Import Model.PingAbs Spec.PingSpec Proofs.PingRefine.
-From PV Require Import Spec.PingRFC Proofs.Ping Proofs.PingIff Proofs.PingMore Proofs.PingFrame Proofs.PingBulk.
+From PV Require Import Spec.PingRFC Proofs.Ping Proofs.PingIff Proofs.PingMore Proofs.PingFrame Proofs.PingBulk Proofs.PingTime.
 Open Scope N_scope.
 
 (* ---------------------------------------------------------------------------------------- *)
@@ -23,21 +24,68 @@ Open Scope N_scope.
    side condition: since the wrap repair (/repo: icmpRegister skips identifiers that are still in
    the table, and a call deletes only its own entry) an identifier is never handed to a second call
    while the first is still waiting on it.  (That End p is p's first return, that its send succeeded
-   and that it was not refused follow from the history being well formed.)  The deadline that
-   counts is the moment the call leaves its select and takes the table lock (End p), which is at or
-   after the timer (Timeout p): a reply that arrives between the two still completes the call. *)
-Theorem C19_iff : forall fx n pre p mid post s,
+   and that it was not refused follow from the history being well formed.)  The statement holds for
+   EVERY timeout argument tmo (0, negative, 1 ns, 10 s, above 10 s): the window is Begin p .. End p,
+   and End p is reachable without a reply only through the timer, which is armed with the EFFECTIVE
+   timeout (C19_timeout_effective below).  The deadline that counts is the moment the call leaves
+   its select and takes the table lock (End p), which is at or after the timer (Timeout p): a reply
+   that arrives between the two still completes the call. *)
+Theorem C19_iff : forall fx n pre p tmo mid post s,
   n < 65536 ->
-  run fx (init n) (pre ++ Begin p :: mid ++ End p :: post) = Ok s ->
+  run fx (init n) (pre ++ Begin p tmo :: mid ++ End p :: post) = Ok s ->
   exists i, id_of s p = Some i /\
     (result_of s p = Some RNil <-> In (Notify i) mid) /\
     (result_of s p = Some RTimeout <-> ~ In (Notify i) mid).
 Proof. exact ping_iff. Qed.
 Print Assumptions C19_iff.
 
+(* The timeout argument.  Ping/Ping6 normalise it first (<= 0 or above 10 s means the 2 s default:
+   [eff_timeout]), then build the waiter and, after the send, arm the timer with the normalised
+   value; msg.expire is written and never read.  A call started with argument tmo that returns
+   ErrTimeout entered its select at some instant [t_armed] and the clock has reached
+   t_armed + eff_timeout tmo: never earlier, whatever tmo is.  Together with C19_iff: nil iff its own
+   reply is parsed before the call ends, and without a reply the call cannot end before the
+   effective timeout. *)
+Theorem C19_eff_timeout : forall t,
+  eff_timeout t = (if ((0 <? t) && (t <=? 10 * SECOND))%Z then t else (2 * SECOND)%Z) /\
+  (0 < eff_timeout t <= 10 * SECOND)%Z.
+Proof. intros t. split; [apply eff_timeout_spec|apply eff_timeout_range]. Qed.
+Print Assumptions C19_eff_timeout.
+
+Theorem C19_timeout_effective : forall fx n pre p tmo rest s, n < 65536 ->
+  run fx (init n) (pre ++ Begin p tmo :: rest) = Ok s ->
+  result_of s p = Some RTimeout ->
+  exists pg, pget (pings s) p = Some pg /\ t_raw (p_time pg) = tmo /\
+             t_eff (p_time pg) = eff_timeout tmo /\
+             (t_armed (p_time pg) + eff_timeout tmo <= clock s)%Z.
+Proof. exact timeout_effective. Qed.
+Print Assumptions C19_timeout_effective.
+
+(* a notification completes a registered waiter whatever its expire field and the clock say *)
+Theorem C19_notify_ignores_time : forall fx s i q pg, Inv s ->
+  tget (tbl s) i = Some q -> pget (pings s) q = Some pg ->
+  exists s', step fx s (Notify i) = Ok s' /\ tget (tbl s') i = None /\
+             exists pg', pget (pings s') q = Some pg' /\ p_recv pg' = true /\ p_closed pg' = true.
+Proof. exact notify_ignores_time. Qed.
+Print Assumptions C19_notify_ignores_time.
+
+(* timeouts 0, -7 ns, 1 ns and 11 s answered inside the send: nil; 1 ns unanswered: ErrTimeout once
+   1 ns has passed; 0 unanswered: ErrTimeout only after the 2 s default (not one nanosecond earlier) *)
+Example C19_timeouts_example :
+  exists s, run FIX24 init_go ex_timeouts = Ok s /\
+    map (result_of s) [0; 1; 2; 3; 4; 5]%nat =
+      [Some RNil; Some RNil; Some RNil; Some RNil; Some RTimeout; Some RTimeout] /\ tbl s = [].
+Proof. exact timeouts_example. Qed.
+Print Assumptions C19_timeouts_example.
+
+Example C19_timeout_zero_not_early :
+  run FIX24 init_go [Begin 0%nat 0%Z; Sent 0%nat true; Tick (2 * SECOND - 1)%Z; Timeout 0%nat] = Err EOther.
+Proof. exact timeout_zero_not_early. Qed.
+Print Assumptions C19_timeout_zero_not_early.
+
 (* A call whose send fails returns that error whatever was parsed meanwhile. *)
-Theorem C19_send_error : forall fx n pre p mid post s,
-  run fx (init n) (pre ++ Begin p :: mid ++ Sent p false :: post) = Ok s ->
+Theorem C19_send_error : forall fx n pre p tmo mid post s,
+  run fx (init n) (pre ++ Begin p tmo :: mid ++ Sent p false :: post) = Ok s ->
   result_of s p = Some RSendErr.
 Proof. exact ping_send_error. Qed.
 Print Assumptions C19_send_error.
@@ -94,9 +142,9 @@ Print Assumptions C19_frame_nonvacuous.
 (* C19_foreign.  A call in whose window every event is either a parsed frame that is NOT an echo
    reply for the call's own identifier (reply with another id, echo request, malformed or non-ICMP
    frame), or no notification at all (timers, events of other calls), returns ErrTimeout. *)
-Theorem C19_foreign : forall fx n pre p mid post s,
+Theorem C19_foreign : forall fx n pre p tmo mid post s,
   n < 65536 ->
-  run fx (init n) (pre ++ Begin p :: mid ++ End p :: post) = Ok s ->
+  run fx (init n) (pre ++ Begin p tmo :: mid ++ End p :: post) = Ok s ->
   (forall e, In e mid ->
      (exists f, e = frame_event f /\ rfc_reply_id f <> id_of s p)
      \/ (forall j, e <> Notify j)) ->
@@ -112,13 +160,13 @@ Print Assumptions C19_foreign.
    every reachable state, calls that are outstanding and not yet woken have pairwise distinct
    identifiers.  (A call that has been woken but has not yet returned may share its identifier
    with a newer call; that is harmless since a call deletes only its own entry: C19_iff.) *)
-Theorem C19_alloc_fresh : forall fx s p s', Inv s -> step fx s (Begin p) = Ok s' ->
+Theorem C19_alloc_fresh : forall fx s p tmo s', Inv s -> step fx s (Begin p tmo) = Ok s' ->
   table_full (tbl s) = false ->
   exists i, id_of s' p = Some i /\ tget (tbl s) i = None /\ tget (tbl s') i = Some p /\ waiting s' p = true.
 Proof. exact begin_fresh. Qed.
 Print Assumptions C19_alloc_fresh.
 
-Theorem C19_alloc_full : forall fx s p s', step fx s (Begin p) = Ok s' -> table_full (tbl s) = true ->
+Theorem C19_alloc_full : forall fx s p tmo s', step fx s (Begin p tmo) = Ok s' -> table_full (tbl s) = true ->
   result_of s' p = Some RBusy /\ tbl s' = tbl s /\ next s' = next s.
 Proof. exact begin_full. Qed.
 Print Assumptions C19_alloc_full.
